@@ -2,6 +2,7 @@ package main
 
 import (
 	"fmt"
+	"strings"
 
 	"verif/internal/prng"
 	"verif/internal/sim"
@@ -26,6 +27,11 @@ func modelOwnershipHit(sc *sim.Scenario, w *sim.World, act M, maxDepth int) bool
 			for _, x := range forwardingValues(v) {
 				id, ok := idOfValue(x)
 				if !ok {
+					// an embedded value without id cannot be owned, but it
+					// is followed like any other embedded value
+					if em, isM := x.(map[string]interface{}); isM {
+						next = append(next, em)
+					}
 					continue
 				}
 				if w.OwnsIRI(id) {
@@ -105,7 +111,11 @@ func genC17(g *prng.R) c17Case {
 				cnt++
 				sib := fmt.Sprintf("%s/notes/sibling%d", pick(g, R1, R2), cnt)
 				var sv interface{} = sib
-				if g.Bool() {
+				if g.Chance(1, 4) {
+					// an anonymous embedded value (ids are optional in
+					// ActivityStreams): never owned, never fetched
+					sv = M{"type": "Note", "content": "anonymous sibling"}
+				} else if g.Bool() {
 					sv = M{"type": "Note", "id": sib}
 				} else if g.Bool() {
 					sc.Remote[sib] = sim.RemoteSpec{Doc: withCtx(M{"type": "Note", "id": sib})}
@@ -176,6 +186,17 @@ func genC17(g *prng.R) c17Case {
 		sc.Store[actID] = withCtx(act)
 	}
 	return c17Case{Sc: sc, Act: act, Info: M{"depth": depth, "own_at": ownAt, "limit": sc.Cfg.MaxForward, "filter": sc.Cfg.Filter, "pre_seen": preSeen}}
+}
+
+// errFeature keeps the stable part of an error text for the signature.
+func errFeature(e string) string {
+	if i := strings.Index(e, ":"); i > 0 && i < 60 {
+		return e[:i]
+	}
+	if len(e) > 60 {
+		return e[:60]
+	}
+	return e
 }
 
 func init() {
@@ -261,7 +282,20 @@ func init() {
 				}
 			}
 			if anyErr {
-				viol("request-failed", "pub.(*sideEffectActor).InboxForwarding", "unexpected error", fmt.Sprint(res.Responses[0].Err))
+				// A failing request is an outcome C10/C11 allow; for this
+				// property it matters only when the three conditions held,
+				// because then the forward that had to happen did not.
+				firstErr := ""
+				for _, rp := range res.Responses {
+					if rp.Err != "" && firstErr == "" {
+						firstErr = rp.Err
+					}
+				}
+				if wantForward && len(forwards) == 0 {
+					viol("forward-missing-request-failed", "pub.(*sideEffectActor).InboxForwarding", errFeature(firstErr), "the three conditions hold but the request failed instead of forwarding: "+firstErr)
+				} else {
+					r.Count("requests_failed_without_expected_forward", 1)
+				}
 				return
 			}
 			wantCreates := 1
